@@ -232,6 +232,18 @@ template <class T> std::vector<Axis> axis_set (bool thorough)
     add (3, 0, -4, "(3,0,-4)");
     add (ldexpl (1, 20), -ldexpl (1, 20), ldexpl (1, 20), "(1,-1,1)*2^20");
     add (ldexpl (1, -20), -ldexpl (3, -20), ldexpl (2, -20), "(1,-3,2)*2^-20");
+    // "any non-zero axis": magnitudes at which the squared length is subnormal, underflows to zero, or is huge
+    // (the rotation does not depend on the magnitude of the axis)
+    {
+        const bool dbl = std::numeric_limits<T>::digits > 30;
+        const int  ks[3] = {dbl ? -540 : -70, dbl ? -600 : -100, dbl ? 500 : 60};
+        for (int k : ks)
+        {
+            add (ldexpl (1, k), -ldexpl (3, k), ldexpl (2, k), "(1,-3,2)*2^" + std::to_string (k));
+            add (0, ldexpl (1, k), 0, "(0,1,0)*2^" + std::to_string (k));
+            add (-ldexpl (2, k), 0, ldexpl (1, k), "(-2,0,1)*2^" + std::to_string (k));
+        }
+    }
     return v;
 }
 
